@@ -1,6 +1,6 @@
 (** C15, set -e: in a flat script (commands only) the first failing command
     ends run_exp; proved for the transcribed loop with exit_on_error on. *)
-From Cicada Require Import Base.Chars Base.Peg Gen.LocustGrammar Model.Script Model.ScriptAst.
+From Cicada Require Import Base.Chars Base.Peg Gen.LocustGrammar Model.Script Model.ScriptAst Proofs.ScriptProofs.
 From Coq Require Import ZArith Lia.
 Local Open Scope N_scope.
 
@@ -20,23 +20,6 @@ Fixpoint run_until_fail (lines : list str) (w : W) : W * list Z :=
   end.
 
 Definition cmd_node (l : str) : ttree := TNode L_CMD l [].
-
-Lemma last_status_cons a l : l <> [] -> last_status (a :: l) = last_status l.
-Proof. destruct l; [congruence|reflexivity]. Qed.
-
-Lemma last_status_app acc crs : crs <> [] -> last_status (acc ++ crs) = last_status crs.
-Proof.
-  intro H. induction acc as [|a acc IH]; [reflexivity|].
-  cbn [app]. rewrite last_status_cons; [exact IH|].
-  destruct acc; cbn; [exact H|discriminate].
-Qed.
-
-Lemma last_nz_app acc crs : last_is_nonzero acc = false ->
-  last_is_nonzero (acc ++ crs) = last_is_nonzero crs.
-Proof.
-  intro H. destruct crs as [|c crs]; [rewrite app_nil_r; exact H|].
-  unfold last_is_nonzero. rewrite last_status_app by discriminate. reflexivity.
-Qed.
 
 Theorem flat_set_e : forall lines, forallb wf_line lines = true ->
   forall w acc, last_is_nonzero acc = false ->
